@@ -276,6 +276,17 @@ class Gen:
         if o == "isempty":
             return {"k": "app", "f": rng.choice(["slice.IsEmpty", "slice.IsNotEmpty"]), "args": [E(("sl", rng.choice([INT, STR])))]}
         if o == "map":
+            # projection of a slice of records with the shorthand property accessor  _.F  (= fun x -> x.F)
+            projs = [(rn, fn) for rn, fs in self.records.items() for fn, ft in fs if ft == t[1]] if self.profile == "fc" else []
+            if projs and rng.random() < 0.4:
+                rn, fn = rng.choice(projs)
+                x = self.fresh("x")
+                lam = self.lam([x], {"k": "field", "e": {"k": "var", "x": x}, "n": fn})
+                lam["us"] = fn
+                lam["bare"] = rng.random() < 0.7
+                srcsl = E(("sl", ("rec", rn)))
+                return {"k": "pipe", "a": srcsl, "b": {"k": "app", "f": "slice.Map", "args": [lam]}} if rng.random() < 0.5 else \
+                    {"k": "app", "f": "slice.Map", "args": [lam, srcsl]}
             src = rng.choice([INT, STR])
             x = self.fresh("x")
             xenv = dict(env)
@@ -611,7 +622,8 @@ def rtype(t):
 
 
 def is_atom(e):
-    return e["k"] in ("int", "str", "bool", "unit", "var", "tuple", "slice", "rec", "field", "interp") or (e["k"] == "ctor" and e["arg"]["k"] == "none")
+    return e["k"] in ("int", "str", "bool", "unit", "var", "tuple", "slice", "rec", "field", "interp") or (e["k"] == "ctor" and e["arg"]["k"] == "none" and not e.get("targs")) or \
+        (e["k"] == "lam" and e.get("us") and e.get("bare"))
 
 
 def rx(e):
@@ -645,9 +657,14 @@ def rexpr(e):
     if k == "app":
         return e["f"] + (("<" + ", ".join(e["targs"]) + ">") if e.get("targs") else "") + " " + " ".join(rx(a) for a in e["args"])
     if k == "lam":
+        if e.get("us"):
+            return "_." + e["us"]
         return "fun %s -> %s" % (" ".join(e["params"]), rexpr(e["body"]["fin"]))
     if k == "ctor":
-        return e["case"] if e["arg"]["k"] == "none" else "%s %s" % (e["case"], rx(e["arg"]))
+        targs = ("<" + ", ".join(e["targs"]) + ">") if e.get("targs") else ""
+        if e["arg"]["k"] == "none":
+            return e["case"] + ((targs + " ()") if targs else "")
+        return "%s%s %s" % (e["case"], targs, rx(e["arg"]))
     if k == "rec":
         return "{" + "; ".join("%s=%s" % (f["n"], rexpr(f["e"])) for f in e["fields"]) + "}"
     if k == "field":
@@ -772,7 +789,7 @@ def render(prog, annotate=True):
         if t["k"] == "record":
             out.append("type %s = {%s}\n" % (t["name"], "; ".join("%s: %s" % (f, rtype(ft)) for f, ft in zip(t["fields"], t["ftypes"]))))
         else:
-            out.append("type %s =\n%s\n" % (t["name"], "\n".join("| %s%s" % (c["n"], (" of " + rtype(pt)) if pt is not None else "") for c, pt in zip(t["cases"], t["ptypes"]))))
+            out.append("type %s%s =\n%s\n" % (t["name"], ("<" + ", ".join(t["tparams"]) + ">") if t.get("tparams") else "", "\n".join("| %s%s" % (c["n"], (" of " + rtype(pt)) if pt is not None else "") for c, pt in zip(t["cases"], t["ptypes"]))))
     # keep every import used whatever the program does
     if prog.get("profile") == "tinyfo":
         out.append("let %sdummy () =\n  let t = (1, 2)\n  let xs = [1]\n  let a = frt.Fst t\n  let b = slice.Length xs\n  let c = strings.Length \"x\"\n  a + b + c\n" % p)
@@ -789,7 +806,7 @@ def to_spec(prog):
     """the abstract program as spec/FoSem.tla reads it (type annotations dropped)"""
     def strip(n):
         if isinstance(n, dict):
-            return {k: strip(v) for k, v in n.items() if k not in ("ptypes", "rtype", "ftypes", "mtype", "elif", "profile", "pt", "vt", "oneline", "targs", "externs", "meta", "decl")}
+            return {k: strip(v) for k, v in n.items() if k not in ("ptypes", "rtype", "ftypes", "mtype", "elif", "profile", "pt", "vt", "oneline", "targs", "externs", "meta", "decl", "tparams")}
         if isinstance(n, list):
             return [strip(v) for v in n]
         if isinstance(n, tuple):
@@ -916,6 +933,46 @@ def kernels(start_id):
                         ctor = {"k": "ctor", "union": un, "case": cases[built]["n"], "arg": _pi(T(1), 4) if pm[built] else {"k": "none"}}
                         add([u], [], {"stmts": [{"k": "let", "x": "u", "e": ctor}],
                                       "fin": {"k": "umatch", "target": {"k": "var", "x": "u"}, "arms": arms, "dflt": dflt}})
+    # K4g the same over a GENERIC union U<T> (T = int; the no-payload constructor is written  Case<int> ()): the emitted switch names the
+    # instantiated case types (defect 27 of DESIGN section 6); plus T = string with the payload returned
+    for nc, pms in ((2, list(itertools.product([True, False], repeat=2))), (3, [(True, False, True), (False, True, True)])):
+        for pm in pms:
+            for built in range(nc):
+                for order in itertools.permutations(range(nc)):
+                    for keep in range(1, nc + 1):
+                        un = "P%dG" % pid[0]
+                        cases = [{"n": "P%dK%d" % (pid[0], i), "p": pm[i]} for i in range(nc)]
+                        # the first payload is the type parameter, later ones are int
+                        first = [i for i in range(nc) if pm[i]][:1]
+                        u = {"k": "union", "name": un, "tparams": ["T"], "cases": cases,
+                             "ptypes": [(("raw", "T") if [i] == first else INT) if pm[i] else None for i in range(nc)]}
+                        arms = []
+                        for j in order[:keep]:
+                            bind = ("w%d" % j) if pm[j] and (j + keep) % 2 == 0 else ("_" if pm[j] else "")
+                            body = {"stmts": [{"k": "mark", "tag": T(30 + j)}],
+                                    "fin": {"k": "bin", "op": "+", "a": {"k": "var", "x": bind}, "b": {"k": "int", "v": 10 * j}} if bind not in ("", "_") else {"k": "int", "v": 10 * j}}
+                            arms.append({"case": cases[j]["n"], "bind": bind, "body": body})
+                        dflt = {"k": "none"} if keep == nc else {"stmts": [{"k": "mark", "tag": T(39)}], "fin": {"k": "int", "v": 77}}
+                        ctor = {"k": "ctor", "union": un, "case": cases[built]["n"], "arg": _pi(T(1), 4) if pm[built] else {"k": "none"}}
+                        if not pm[built] or [built] != first:
+                            ctor["targs"] = ["int"]          # nothing determines T: written explicitly
+                        add([u], [], {"stmts": [{"k": "let", "x": "u", "e": ctor}],
+                                      "fin": {"k": "umatch", "target": {"k": "var", "x": "u"}, "arms": arms, "dflt": dflt}})
+    for built in range(2):
+        for order in itertools.permutations(range(2)):
+            for keep in (1, 2):
+                un = "P%dG" % pid[0]
+                cases = [{"n": "P%dK0" % pid[0], "p": True}, {"n": "P%dK1" % pid[0], "p": False}]
+                u = {"k": "union", "name": un, "tparams": ["T"], "cases": cases, "ptypes": [("raw", "T"), None]}
+                bodies = [{"stmts": [{"k": "mark", "tag": T(30)}], "fin": {"k": "bin", "op": "+", "a": {"k": "var", "x": "w0"}, "b": {"k": "str", "v": "!"}}},
+                          {"stmts": [{"k": "mark", "tag": T(31)}], "fin": {"k": "str", "v": "none"}}]
+                arms = [{"case": cases[j]["n"], "bind": "w0" if j == 0 else "", "body": bodies[j]} for j in order[:keep]]
+                dflt = {"k": "none"} if keep == 2 else {"stmts": [], "fin": {"k": "str", "v": "dflt"}}
+                ctor = {"k": "ctor", "union": un, "case": cases[built]["n"], "arg": {"k": "probe", "tag": T(1), "e": {"k": "str", "v": "pay"}} if built == 0 else {"k": "none"}}
+                if built == 1:
+                    ctor["targs"] = ["string"]
+                add([u], [], {"stmts": [{"k": "let", "x": "u", "e": ctor}],
+                              "fin": {"k": "umatch", "target": {"k": "var", "x": "u"}, "arms": arms, "dflt": dflt}}, STR)
     # K5 string match: literal arms + variable rule / default
     for val in ("a", "b", "zz"):
         for last in ("var", "dflt"):
